@@ -1,4 +1,5 @@
 import Blue.Model.ManiDir
+import Blue.Model.ManiLock
 import Blue.Driver.Util
 /-! Driver verbs for the manifest model (property C13), instance token `mani`.
 
@@ -10,7 +11,11 @@ import Blue.Driver.Util
     * `step <history>`            what is observable after the last event
     * `cuts <ranges> <hex>`       `Manifest::open` on every listed prefix of a MANIFEST
     * `crash <n> <w|c> <history>` reopen after the first `n` system calls, persistence models a and b
-    * `ops <history>`             the mutating system calls, in order -/
+    * `ops <history>`             the mutating system calls, in order
+    * `lock <ratio> <event>* / <event>* / <event>*`   two processes: the first runs the first list
+      of events, a second process calls `Manifest::open` and waits for the lock, the first runs the
+      second list and drops its handle, the second gets the lock (`Blue.ManiLock.waiterOpen`, read
+      under the lock), runs the third list and exits: what a reopen then shows, `Manifest::verify` -/
 namespace Blue.Driver.C13
 open Blue.Mani Blue.ManiCrash Blue.Driver
 
@@ -226,7 +231,38 @@ def opsVerb (h : Hist) : String :=
     let t := traceOf (fs0 h) (opsOf maniAlgebra clients [])
     if t.isEmpty then "-" else " ".intercalate t
 
+/-! two processes -/
+
+def splitSlash : List String → List String → List (List String)
+  | [], cur => [cur.reverse]
+  | "/" :: t, cur => cur.reverse :: splitSlash t []
+  | x :: t, cur => splitSlash t (x :: cur)
+
+def lockVerb (ratio : Nat) (pre dur bev : List Event) : String :=
+  match schedule crc ratio pre [] [], schedule crc ratio (pre ++ dur) [] [] with
+  | some cp, some ca =>
+    let opsP := opsOf maniAlgebra cp []
+    let opsA := opsOf maniAlgebra ca []
+    let during := opsA.drop opsP.length
+    let r := Blue.ManiLock.waiterOpen maniAlgebra false (run emptyFs opsP) during
+    let sofar := editsOfEvents (pre ++ dur)
+    match schedule crc ratio bev (r.1.mani.durable ++ r.1.mani.pending) sofar with
+    | none => "bad-op"
+    | some cb =>
+      let fs := run r.1 (opsOf maniAlgebra cb sofar)
+      let exists_ := !(sofar ++ editsOfEvents bev).isEmpty
+      "open=" ++ renderOpen (if exists_ then some (fileBytes crc (fs.mani.durable ++ fs.mani.pending)) else none) ++
+      " verify=" ++ toString (chainErrs (if exists_ then fragments fs else fs.backups))
+  | _, _ => "bad-op"
+
 def handle : List String → String
+  | "lock" :: r :: rest =>
+    match r.toNat?, splitSlash rest [] with
+    | some ratio, [a, b, c] =>
+      match allSome (a.map parseEvent), allSome (b.map parseEvent), allSome (c.map parseEvent) with
+      | some pa, some pb, some pc => lockVerb ratio (pa.map (·.1)) (pb.map (·.1)) (pc.map (·.1))
+      | _, _, _ => "bad-op"
+    | _, _ => "bad-op"
   | "step" :: rest => match parseHist rest with
     | some h => stepVerb h
     | none => "bad-op"
